@@ -2688,6 +2688,32 @@ class StateEngine(object):
                 Each nested Map or Parallel state can append to the "Branch"
                 list, which behaves like a stack.
                 """
+                if not state.get("Branches"):
+                    """
+                    With no branches nothing would ever report back to
+                    asl_state_collect_results, so complete at once with an
+                    empty result array as the Map state does for an empty
+                    array of items.
+                    """
+                    result = evaluate_payload_template(
+                        [], context, state.get("ResultSelector")
+                    )
+
+                    # Parallel and Map states apply ResultPath to "raw input"
+                    event["data"] = merge_result(data, context, result, state)
+
+                    if state.get("End"):
+                        handle_terminal_state(state_type, event, id)
+                    else:
+                        error_type, error_message = self.change_state(
+                            state_machine, state_type, state.get("Next"), event
+                        )
+                        if error_type:
+                            handle_error(state, error_type, error_message)
+
+                        self.event_dispatcher.acknowledge(id)
+                    return
+
                 context_state = context["State"]
                 if "Branch" in context_state:
                     """
